@@ -11,6 +11,11 @@ from .types import Evaluatable, Options, Value
 TEMPLATE_PARAM = re.compile(r"^:[a-zA-Z_][a-zA-Z0-9_]*:$")
 
 
+def _literal(value: Any) -> str:
+    """The string form of a parameter value, escaped so that it is substituted as is."""
+    return str(value).replace("{", "\\{").replace("}", "\\}")
+
+
 class Template(Evaluatable[str]):
     """A template string that can be evaluated using other Evaluatables.
 
@@ -80,7 +85,10 @@ class Template(Evaluatable[str]):
 
     def evaluate(self, options: Options) -> str:
         """Evaluates the template using the options dictionary."""
-        params = {f":{key}:": val.evaluate(options) for key, val in self.params.items()}
+        params = {
+            f":{key}:": _literal(val.evaluate(options))
+            for key, val in self.params.items()
+        }
 
         try:
             return str(resolve(self.template, mix(options, params)))  # type: ignore
